@@ -546,7 +546,9 @@ class Simulator:
         return Result(
             Simulation(
                 model=self.model,
-                raw_variables=variables,
-                raw_parameters=parameters,
+                # A result is a value: later simulations on this simulator must not
+                # grow the segment lists of a result that was already handed out
+                raw_variables=list(variables),
+                raw_parameters=list(parameters),
             )
         )
